@@ -388,6 +388,99 @@ for M_i, M_mu, M_cov, M_s in zip(M_z1, M_z2, M_z3, M_z4):
             f"Definition {prefix}_update_predicts_on : string := \"self.points[indices_to_update]\".\n")
 
 
+# ------------------------------------------------------------------ problems (C20)
+def t_noisy_chol(src):
+    where = "vopy/utils/utils.py:get_noisy_evaluations_chol"
+    fn = src.func("vopy/utils/utils.py", "get_noisy_evaluations_chol")
+    b = match_stmts("""
+if cholesky_cov.ndim != 2 or means.shape[1] != cholesky_cov.shape[1]:
+    raise AssertionError(M_msg)
+n, d = (means.shape[0], len(cholesky_cov))
+X = np.random.normal(size=(n, d))
+complicated_X = np.dot(X, M_fac)
+noisy_samples = means + complicated_X
+return noisy_samples
+""", clean_body(fn), where)
+    fac = ast.unparse(b["M_fac"])
+    if fac == "cholesky_cov.T":
+        row = "matvec L g"            # (g L^T)_k = sum_j g_j L_kj = (L g)_k
+    elif fac == "cholesky_cov":
+        row = "matvec (map (transpose_col L) (seq 0 (length g))) g"   # (g L)_k = sum_j g_j L_jk = (L^T g)_k
+    else:
+        raise Reject(where, f"unexpected factor `{fac}`")
+    return (f"(* {where}: one row of the result, for the standard-normal draw g of that row *)\n"
+            f"Definition gen_noisy_row (L : mat) (f g : vec) : vec := vadd f ({row}).\n")
+
+
+def t_normalize(src, name):
+    where = f"vopy/utils/utils.py:{name}"
+    fn = src.func("vopy/utils/utils.py", name)
+    out_name = "normalized_data" if name == "normalize" else "unnormalized_data"
+    b = match_stmts(f"""
+if len(bounds) != data.shape[1]:
+    raise ValueError(M_msg)
+{out_name} = np.empty_like(data)
+for i, (lower, upper) in enumerate(bounds):
+    {out_name}[:, i] = M_e
+return {out_name}
+""", clean_body(fn), where)
+    ec = ExprC({"data[:, i]": "x", "lower": "lo", "upper": "up"}, mode="Q", where=where)
+    e = b["M_e"]
+    # data[:, i] is a Subscript: compile by textual substitution of the column name
+    class Sub(ast.NodeTransformer):
+        def visit_Subscript(self, n):
+            if ast.unparse(n) == "data[:, i]":
+                return ast.Name(id="COL", ctx=ast.Load())
+            return n
+    e2 = Sub().visit(e)
+    ec.env = {"COL": "x", "lower": "lo", "upper": "up"}
+    return (f"(* {where}: entry of column i with bounds (lo, up) *)\n"
+            f"Definition gen_{name}1 (lo up x : Q) : Q := {ec.c(e2)}.\n")
+
+
+def t_decoupled_evaluate(src):
+    where = "vopy/maximization_problem.py:DecoupledEvaluationProblem.evaluate"
+    fn = src.func("vopy/maximization_problem.py", "DecoupledEvaluationProblem.evaluate")
+    match_stmts("""
+if evaluation_index is not None and (not isinstance(evaluation_index, int)) and (len(x) != len(evaluation_index)):
+    raise ValueError(M_msg)
+values = self.problem.evaluate(x, **evaluate_kwargs)
+if evaluation_index is None:
+    return values
+if isinstance(evaluation_index, int):
+    return values[:, evaluation_index]
+evaluation_index = np.array(evaluation_index, dtype=np.int32)
+return values[np.arange(len(evaluation_index)), evaluation_index]
+""", clean_body(fn), where)
+    return (f"(* {where} *)\n"
+            "Definition gen_decoupled_select (values : list vec) (e : evidx) : option (list vec) :=\n"
+            "  match e with\n  | AllObjectives => Some values\n  | OneObjective k => Some (map (fun v => [nth k v 0]) values)\n"
+            "  | PerRow ks => if Nat.eqb (length ks) (length values)\n"
+            "                 then Some (map (fun vk => [nth (snd vk) (fst vk) 0]) (combine values ks)) else None\n  end.\n")
+
+
+def t_currin_alias(src):
+    where = "vopy/maximization_problem.py:BraninCurrin._currin"
+    fn = src.func("vopy/maximization_problem.py", "BraninCurrin._currin")
+    body = clean_body(fn)
+    binds = {}
+    writes = []
+    for st in body:
+        if isinstance(st, ast.Assign) and len(st.targets) == 1 and isinstance(st.targets[0], ast.Name):
+            v = ast.unparse(st.value)
+            binds[st.targets[0].id] = v
+        elif isinstance(st, ast.AugAssign) and isinstance(st.target, ast.Subscript):
+            writes.append(ast.unparse(st.target.value))
+        elif isinstance(st, ast.Assign) and isinstance(st.targets[0], ast.Subscript):
+            writes.append(ast.unparse(st.targets[0].value))
+    def is_view(name):
+        v = binds.get(name, "")
+        return v.startswith("X[") and ".copy()" not in v
+    through = any(w == "X" or is_view(w) for w in writes)
+    return (f"(* {where}: does an in-place write reach the caller's array through a view of the argument? *)\n"
+            f"Definition gen_currin_writes_through_argument : bool := {'true' if through else 'false'}.\n")
+
+
 def run(src, out):
     hdr = {}
     f = "Gen_order.v"
@@ -413,8 +506,18 @@ def run(src, out):
     hdr[f] = (HEADER.format(src="vopy/design_space.py") + "From Coq Require Import String List.\nImport ListNotations.\nOpen Scope string_scope.\n\n")
     out.attempt(f, "FixedPointsDesignSpace.update", lambda: t_ds_update(src, "FixedPointsDesignSpace", "fixed"))
     out.attempt(f, "AdaptivelyDiscretizedDesignSpace.update", lambda: t_ds_update(src, "AdaptivelyDiscretizedDesignSpace", "adaptive"))
+    f = "Gen_problem.v"
+    hdr[f] = (HEADER.format(src="vopy/utils/utils.py, vopy/maximization_problem.py")
+              + "From Coq Require Import QArith List Bool.\nFrom VOPy Require Import QVec Problem.\nImport ListNotations.\nOpen Scope Q_scope.\n\n")
+    out.attempt(f, "get_noisy_evaluations_chol", lambda: t_noisy_chol(src))
+    out.attempt(f, "normalize", lambda: t_normalize(src, "normalize"))
+    out.attempt(f, "unnormalize", lambda: t_normalize(src, "unnormalize"))
+    out.attempt(f, "DecoupledEvaluationProblem.evaluate", lambda: t_decoupled_evaluate(src))
+    out.attempt(f, "BraninCurrin._currin", lambda: t_currin_alias(src))
     import algos
     algos.run(src, out, hdr)
     import steps
     steps.run(src, out, hdr)
+    import formulas
+    formulas.run(src, out, hdr)
     return hdr
